@@ -423,9 +423,9 @@ TUS = [
     # binary trees: the right operand is itself a view over leaf b
     tu('h_c10_tr', ['transpose', 'slice', 'addb', 'mulb'], ['addb', 'where', 'concatenate', 'matmul'], ['sum'],
        b0=['transpose', 'flip', 'sum', 'reshape'], defs=['-DC10_NO_INTO']),
-    # array::apply_slice and view::stack need their own include sets (see c10_ops.hpp)
+    # view::stack needs its own include set (see c10_ops.hpp)
     tu('h_c10_ss', ['slice', 'stack', 'transpose', 'addb', 'expand_dims', 'tile'], ['slice', 'stack', 'transpose'],
-       defs=['-DC10_EAGER_SLICE', '-DC10_WITH_STACK']),
+       defs=['-DC10_WITH_STACK']),
     # float elements: same scalar operations in the same order => bit-identical results
     tu('h_c10_fl', ['softmax', 'transpose', 'addb', 'sum', 'mulb'], ['softmax', 'sum', 'transpose', 'addb'],
        defs=['-DC10_ELEM=float'], dtype=np.float32),
@@ -620,12 +620,36 @@ def intofn_cases(tier, rng):
 
 
 def adl_cases():
+    """regression of the repaired defect adl.eager-apply_slice: with array/array/slice.hpp in the same TU the views must
+    still be lazy views (lazy=1) and view::matmul / array::matmul must return the matrix product (ASan/UBSan build)"""
     if os.environ.get('C10_ONLY') and 'h_c10_adl' not in os.environ['C10_ONLY']:
         return
-    for a, b in (([2, 3], [3, 2]), ([1, 2], [2, 1]), ([3, 2], [2, 4])):
+    h = ADL['name']
+    tg = ['adl', 'eager-slice-header-present']
+    for a, b in (([2, 3], [3, 2]), ([1, 2], [2, 1]), ([3, 2], [2, 4]), ([2, 2, 3], [3, 2])):
         r = np.matmul(leaf(a, 0, np.int64), leaf(b, 1000, np.int64))
-        yield Case('adl a=%s b=%s' % (fmt(a), fmt(b)), ADL['name'], dom=False, model=False,
-                   oracle='ok shape=%s data=%s' % (fmt(r.shape), fmt(r.reshape(-1))), tags=['adl', 'known-finding-witness'])
+        yield Case('adl what=matmul a=%s b=%s' % (fmt(a), fmt(b)), h, dom=False, model=False,
+                   oracle='ok shape=%s data=%s' % (fmt(r.shape), fmt(r.reshape(-1))), tags=tg + ['op=matmul'])
+    for s in ([2, 3], [4], [2, 3, 2], [4, 3]):
+        x = leaf(s, 0, np.int64)
+        for ax in range(len(s)):
+            r = np.flip(x, ax)
+            yield Case('adl what=flip a=%s axis=%d' % (fmt(s), ax), h, dom=False, model=False,
+                       oracle='ok lazy=1 shape=%s data=%s' % (fmt(r.shape), fmt(r.reshape(-1))), tags=tg + ['op=flip'])
+            r = np.sum(x, axis=ax)
+            yield Case('adl what=sum a=%s axis=%d' % (fmt(s), ax), h, dom=False, model=False,
+                       oracle='ok shape=%s data=%s' % (fmt(r.shape), fmt(r.reshape(-1))), tags=tg + ['op=sum'])
+            r = np.cumsum(x, axis=ax)
+            yield Case('adl what=cumsum a=%s axis=%d' % (fmt(s), ax), h, dom=False, model=False,
+                       oracle='ok shape=%s data=%s' % (fmt(r.shape), fmt(r.reshape(-1))), tags=tg + ['op=cumsum'])
+        if len(s) == 2 and s[1] >= 2:
+            r = x[0:s[0], 1:s[1]]
+            yield Case('adl what=slice a=%s' % fmt(s), h, dom=False, model=False,
+                       oracle='ok lazy=1 shape=%s data=%s' % (fmt(r.shape), fmt(r.reshape(-1))), tags=tg + ['op=slice'])
+        if s[0] % 2 == 0:
+            r = np.split(x, 2, axis=0)[0]
+            yield Case('adl what=split a=%s' % fmt(s), h, dom=False, model=False,
+                       oracle='ok lazy=1 shape=%s data=%s' % (fmt(r.shape), fmt(r.reshape(-1))), tags=tg + ['op=split'])
 
 
 def gen(tier, rng):
@@ -671,10 +695,6 @@ def coverage_extra(cases, tier):
             'compositions': len({c.req.split(' mat=')[0] for c in cases if c.req.startswith('comp ')})}
 
 
-def k_adl_eager_apply_slice(c):
-    return c.req.startswith('adl ')
-
-
 RULE = ('per harness TU every operation sequence its op masks admit (depth 1: all 23 operations + run-time keepdims; depth 2: all ordered pairs over '
         'two 8-op sets (thorough: all 23x23 pairs); depth 3: 3x4x4 chains; binary trees whose right operand is a view over a second leaf), each with seeded '
         'random operand shapes (rank 1..3, extents 1..4) and arguments in the accepted domain, each evaluated with every lazy/eager split '
@@ -696,11 +716,11 @@ MANIFEST = dict(
          'eagerly and with every inner view materialised, compared with NumPy and with the Lean evaluator model.',
     note='Lean kernel + propext/Classical.choice/Quot.sound; the evaluator model is hand-written and parameterised by the view (its fidelity and the '
          'per-operation denotations rest on the correspondence run and on C03-C08); compositions are sampled, not exhaustive; SIMD / device evaluators are '
-         'C12/C13; one genuine defect listed as known finding (ADL picks the eager array::apply_slice inside view::matmul when array/slice.hpp is included).',
+         'C12/C13; one genuine defect found here was repaired in /repo (ADL picked the eager array::apply_slice inside view::matmul / flip / slice / split / reduce / accumulate when array/slice.hpp was included; the calls are now qualified) and is re-run as a sanitizer regression TU.',
     technique='Lean 4 proofs about the evaluator model over an arbitrary view denotation + differential correspondence on generated compositions + NumPy oracle')
 ASSUMPTIONS = ['each operation\'s own denotation (shape and element function) is what C03-C08/C16/C17 establish; C10 quantifies over the denotation',
                'arguments stay in the accepted, defect-free domain of C03-C08 (non-negative axes, in-range indices, positive slice steps, no rank-0 reshape)',
                'integer provenance data stays below 2^31 (generator rejects larger intermediate values); float32 results are compared with NumPy under a 2e-6 relative tolerance and bit-exactly between evaluation strategies',
                'compile-time-constant index kinds beyond the six ct operations here, clipped shapes and NMTOOLS_DISABLE_STL builds are C09/C11']
 PARTIAL = []
-KNOWN_PREDICATES = {'adl_eager_apply_slice': k_adl_eager_apply_slice}
+KNOWN_PREDICATES = {}
